@@ -309,7 +309,7 @@ def hostile_pairs(ctx, sel, raw, max_decodes=2400):
 
 
 def _atheris(ctx, runs, max_len):
-    wd = os.path.join(HOME, ".work", "c12", "shard%d" % ctx.shard)
+    wd = os.path.join(os.environ.get("VERIF_OUT", HOME), ".work", "c12", "shard%d" % ctx.shard)  # per output directory: two runs of this check may be under way at once
     shutil.rmtree(wd, ignore_errors=True)
     corpus = os.path.join(wd, "corpus")
     os.makedirs(corpus)
@@ -408,14 +408,19 @@ def shard(ctx):
     # (e) hostile count x negative-length pairs, enumerated on a few valid responses per shard
     def pbody(a):
         name, raw = c05.raw_of(a)
-        if len(raw) > 400:
+        if len(raw) > 600:
             return
         k = hostile_pairs(ctx, _dec_index(name), raw)
         ctx.evaluations += max(k - 1, 0)
         ctx.labels["hostile-count-x-negative-length"] += k
         ctx.case(key=["pairs", name, raw], nontrivial=k > 0, labels=["pairs"], sample={"decoder": name, "base_len": len(raw), "combinations": k})
 
-    hyp(ctx, c05.VALID_RESPONSE, pbody, ctx.n(16 * 3, 16 * 60), shrink=False, offset=5)
+    # every response kind gets its share whatever the seed: shard i enumerates on responses of kind i (mod the number of kinds)
+    kinds = [s for n, s in c05.STRATS if n != "roundtrip"]
+    hyp(ctx, kinds[ctx.shard % len(kinds)](), pbody, ctx.n(16 * 6, 16 * 120), shrink=False, offset=5)
+    if ctx.nshards < len(kinds):
+        for extra in range(ctx.shard + ctx.nshards, len(kinds), ctx.nshards):
+            hyp(ctx, kinds[extra](), pbody, ctx.n(16 * 6, 16 * 120), shrink=False, offset=5 + extra)
 
     nfuzz = 4 if ctx.tier == "quick" else 16
     if ctx.shard < nfuzz:
